@@ -10,10 +10,14 @@ From PyOrb.gen Require Import Gen_astronomy.
 From PyOrb.proofs Require Import P_Sun P_SunDir.
 Open Scope R_scope.
 
-(* 1. ecliptic longitude (radians, neither side reduced mod 2 PI) within 0.0115 deg of the
+(* Error budget of the property's 0.03 deg on the sphere (= 5.236e-4 rad):
+   ecliptic longitude 0.0275 deg + obliquity 0.002 deg + sidereal time 1e-7 rad = 5.150e-4 rad.
+   (Measured maxima: longitude 0.00904 deg, obliquity 0.00111 deg, distance 0.00047 AU.) *)
+
+(* 1. ecliptic longitude (radians, neither side reduced mod 2 PI) within 0.0275 deg of the
       Almanac's lambda = L + 1.915 sin g + 0.020 sin 2g *)
 Theorem C06_ecliptic_longitude : forall d, -1 / 2 <= d / 36525 <= 51 / 100 ->
-  Rabs (gen_sun_ecliptic_longitude d - deg2rad (lambda_AA d)) <= deg2rad (115 / 10000).
+  Rabs (gen_sun_ecliptic_longitude d - deg2rad (lambda_AA d)) <= deg2rad (275 / 10000).
 Proof. exact ecliptic_longitude_AA. Qed.
 Print Assumptions C06_ecliptic_longitude.
 
@@ -24,7 +28,7 @@ Proof. exact distance_AA. Qed.
 Print Assumptions C06_distance.
 
 (* 2 + 4. the generated model does not expose the obliquity as a definition of its own, so it
-   is quantified: there is an angle eps within 0.0012 deg (< 0.002 deg) of the Almanac's
+   is quantified: there is an angle eps within 0.002 deg of the Almanac's
    obliquity such that the code's declination and right ascension are EXACTLY the spherical
    coordinates of the unit vector (cos l, cos eps sin l, sin eps sin l), l = the code's
    ecliptic longitude: the code's atan2 (z, sqrt (1 - z^2)) is asin z, and its half-angle form
@@ -33,7 +37,7 @@ Print Assumptions C06_distance.
    (No binary64 longitude has sin l = 0 besides l = 0, so that instant is not representable.) *)
 Theorem C06_radec_are_spherical : forall d, -1 / 2 <= d / 36525 <= 51 / 100 ->
   exists eps : R,
-    Rabs (eps - deg2rad (eps_AA d)) <= deg2rad (12 / 10000) /\
+    Rabs (eps - deg2rad (eps_AA d)) <= deg2rad (2 / 1000) /\
     let lam := gen_sun_ecliptic_longitude d in
     gen_sun_dec d = asin (sin eps * sin lam) /\
     (cos lam <> -1 -> gen_sun_ra d = atan2 (cos eps * sin lam) (cos lam)) /\
@@ -52,7 +56,7 @@ Print Assumptions C06_obliquity.
 Theorem C06_sun_vector : forall d, -1 / 2 <= d / 36525 <= 51 / 100 ->
   cos (gen_sun_ecliptic_longitude d) <> -1 ->
   exists eps : R,
-    Rabs (eps - deg2rad (eps_AA d)) <= deg2rad (12 / 10000) /\
+    Rabs (eps - deg2rad (eps_AA d)) <= deg2rad (2 / 1000) /\
     let lam := gen_sun_ecliptic_longitude d in
     let ra := gen_sun_ra d in let dec := gen_sun_dec d in
     sph_x ra dec = ecl_x lam eps /\ sph_y ra dec = ecl_y lam eps /\ sph_z ra dec = ecl_z lam eps.
@@ -60,13 +64,13 @@ Proof. exact sun_vector. Qed.
 Print Assumptions C06_sun_vector.
 
 (* 8 (Tier 2). chord between the code's sun direction and the Almanac's (alpha, delta) direction
-   is at most 2.3e-4 (an angle of 0.0132 deg) over the whole century *)
+   is at most 5.15e-4, i.e. an angle 2 asin (chord / 2) < 0.0296 deg < 0.03 deg, over the whole century *)
 Theorem C06_sun_direction : forall d, -1 / 2 <= d / 36525 <= 51 / 100 ->
   cos (gen_sun_ecliptic_longitude d) <> -1 ->
   let ra := gen_sun_ra d in let dec := gen_sun_dec d in
   let l' := deg2rad (lambda_AA d) in let e' := deg2rad (eps_AA d) in
   chord3 (sph_x ra dec) (sph_y ra dec) (sph_z ra dec) (ecl_x l' e') (ecl_y l' e') (ecl_z l' e')
-  <= 23 / 100000.
+  <= 515 / 1000000.
 Proof. exact sun_direction. Qed.
 Print Assumptions C06_sun_direction.
 
@@ -90,14 +94,15 @@ Theorem C06_coszen_is_dot : forall d lon lat,
 Proof. exact coszen_is_dot. Qed.
 Print Assumptions C06_coszen_is_dot.
 
-(* hence within 2.31e-4 of the Almanac sun seen from the same place with IAU-82 sidereal time *)
+(* hence cos(zenith) is within 5.16e-4 (0.03 deg = 5.236e-4 rad; |d cos z| <= |d z|) of the cosine of the
+   zenith angle of the Almanac sun seen from the same place with IAU-82 sidereal time *)
 Theorem C06_coszen_close : forall d lon lat, -1 / 2 <= d / 36525 <= 51 / 100 ->
   cos (gen_sun_ecliptic_longitude d) <> -1 ->
   let l' := deg2rad (lambda_AA d) in let e' := deg2rad (eps_AA d) in
   let th' := gmst82_rad d + deg2rad lon in let phi := deg2rad lat in
   Rabs (gen_cos_zen d lon lat
         - dot3 (ecl_x l' e') (ecl_y l' e') (ecl_z l' e') (zen_x th' phi) (zen_y th' phi) (zen_z th' phi))
-  <= 231 / 1000000.
+  <= 516 / 1000000.
 Proof. exact coszen_close. Qed.
 Print Assumptions C06_coszen_close.
 
